@@ -13,7 +13,6 @@ Finding-keyed exclusions (known/C32.txt; witnesses replayed on every run) narrow
 """
 import json
 import os
-import shlex
 
 # name: (generate?, known key)
 EXCL = {
